@@ -609,3 +609,62 @@ func runC02_18(c *core.Ctx) {
 			"Poller."+op.name+" does not add EPOLLET (and only flags, no direction bits) exactly when edgeTriggered is set: an ET engine gets level-triggered registrations (its drain loops spin or starve) or an LT engine edge-triggered ones (events are lost)")
 	}
 }
+
+func init() {
+	register(&core.Rule{ID: "C02.19", Prop: "C02", MinSites: 2, Applies: func(c core.Config) bool { return c.IsLinux() },
+		Desc: "the vector reaches writev(2) whole: pkg/io.Writev returns unix.Writev(fd, iov) with its own two parameters on every path except the one that established len(iov) == 0 (which reports 0 bytes and no error) – it neither truncates the vector nor answers for the kernel",
+		Run:  runC02_19})
+}
+
+func runC02_19(c *core.Ctx) {
+	f := getFn(c, "pkg/io", "Writev")
+	if f == nil {
+		return
+	}
+	const fEmpty = 1
+	p := &flow.Problem{Must: true}
+	p.Edge = func(e *flow.Edge, in uint64) uint64 {
+		if e.Cond == nil || e.Tag != nil {
+			return in
+		}
+		if x, y, op, ok := flow.Cmp(e.Cond); ok {
+			if call, isCall := ast.Unparen(x).(*ast.CallExpr); isCall && len(call.Args) == 1 && flow.ObjOf(f.Info, call.Args[0]) == types.Object(f.param(1)) {
+				if id, isId := call.Fun.(*ast.Ident); isId && id.Name == "len" {
+					if cv := flow.ConstOf(f.Info, y); cv != nil {
+						k, _ := constant.Int64Val(constant.ToInt(cv))
+						// the edge admits only len == 0
+						t0, ok0 := ival{lo: 0, hi: 0}.cmp(op, k)
+						t1, ok1 := ival{lo: 1, hiInf: true}.cmp(op, k)
+						if ok0 && ok1 && t0 == e.Sense && t1 != e.Sense {
+							in |= fEmpty
+						}
+					}
+				}
+			}
+		}
+		return in
+	}
+	sol := f.Graph().Solve(p)
+	k := 0
+	sol.AtExit(func(b *flow.Block, facts uint64) {
+		r := b.Return
+		if r == nil {
+			return
+		}
+		k++
+		good := false
+		if len(r.Results) == 1 {
+			if call, ok := ast.Unparen(r.Results[0]).(*ast.CallExpr); ok && flow.IsPkgFunc(f.Info, call, unixPkg, "Writev") && len(call.Args) == 2 &&
+				flow.ObjOf(f.Info, call.Args[0]) == types.Object(f.param(0)) && flow.ObjOf(f.Info, call.Args[1]) == types.Object(f.param(1)) {
+				good = true
+			}
+		}
+		if len(r.Results) == 2 && facts&fEmpty != 0 {
+			if cv := flow.ConstOf(f.Info, r.Results[0]); cv != nil && constant.Sign(cv) == 0 && flow.IsNil(f.Info, r.Results[1]) {
+				good = true
+			}
+		}
+		c.Check(good, f.Name, "return #"+itoa(k), r.Pos(), "unix.Writev(fd, iov), or (0, nil) for an empty vector",
+			"io.Writev returns something other than the result of unix.Writev on its own parameters (or answers without the syscall for a non-empty vector): segments are dropped from the vector or reported as sent without having been written")
+	})
+}
